@@ -3,7 +3,7 @@
   fuel a parameter.
 
   The model (Gts/Model/GenBankParse.lean, InsdcParse.lean, Origin.lean, LocText.lean) passes each
-  of its loops a fuel computed from the bytes left (`n + 1`, `2n + 2`, `len + 2`, `len(tok)`,
+  of its loops a fuel computed from the bytes left (`n + 1`, `2n + 2`, `len + 2`,
   `length`, the constants 6 and 10).  `Fuels` holds one function per loop KIND that maps the model's
   fuel to the fuel actually passed; the definitions below are the model's definitions, statement
   for statement, with `g.<loop> (model fuel)` in the place of the model fuel and the `…X` versions of
@@ -33,8 +33,6 @@ structure Fuels where
   taxon : Nat → Nat
   /-- `refSubfields`, model fuel `bytes left + 1` -/
   refs : Nat → Nat
-  /-- `stripCont` (continuation prefix of a quoted value), model fuel `len(token)` -/
-  strip : Nat → Nat
   /-- `literalMore`, model fuel `bytes left + 1` -/
   literal : Nat → Nat
   /-- `qualifiers` (`pars.Many`), model fuel `bytes left + 1` -/
@@ -60,12 +58,12 @@ structure Fuels where
 
 /-- the model's own fuels -/
 def Fuels.model : Fuels :=
-  ⟨id, id, id, id, id, id, id, id, id, id, id, id, id, id, id, id, id, id⟩
+  ⟨id, id, id, id, id, id, id, id, id, id, id, id, id, id, id, id, id⟩
 
 /-- every loop gets `k` more rounds than the model gives it -/
 def Fuels.plus (k : Nat) : Fuels :=
   let f := fun n => n + k
-  ⟨f, f, f, f, f, f, f, f, f, f, f, f, f, f, f, f, f, f⟩
+  ⟨f, f, f, f, f, f, f, f, f, f, f, f, f, f, f, f, f⟩
 
 /-- no fuel is lowered -/
 structure Fuels.Ge (g : Fuels) : Prop where
@@ -75,7 +73,6 @@ structure Fuels.Ge (g : Fuels) : Prop where
   dblink : ∀ n, n ≤ g.dblink n
   taxon : ∀ n, n ≤ g.taxon n
   refs : ∀ n, n ≤ g.refs n
-  strip : ∀ n, n ≤ g.strip n
   literal : ∀ n, n ≤ g.literal n
   quals : ∀ n, n ≤ g.quals n
   table : ∀ n, n ≤ g.table n
@@ -247,15 +244,9 @@ def commentFieldX (depth : Nat) (f : Fields) : P (Fields × Bool) := do
 
 /-! ### the feature table -/
 
-def quotedValueX (pre : Bytes) : P Bytes := do
-  push
-  let c ← (do match ← attempt next with | some c => pure c | none => do pop; fail)
-  if c != 61 then do pop; fail
-  advance1
-  let tok ← (do match ← attempt quoted with | some t => pure t | none => do pop; fail)
-  drop
-  let _ ← attempt eol
-  pure (stripCont pre (g.strip tok.length) tok)
+/- `quotedQualifierParser`: since 2612fae the loop that takes the continuation indent out of the value
+is a counted loop over the token (`stripCont`, no fuel) — the model's `quotedValue` has no fuel to
+replace and is used as it is. -/
 
 def literalValueX (pre : Bytes) : P Bytes := do
   push
@@ -272,11 +263,11 @@ def literalValueX (pre : Bytes) : P Bytes := do
 def qualifierX (pre : Bytes) (reg : Registry) : P ((Bytes × Bytes) × Registry) := do
   let name ← qualifierName pre
   match reg.typeOf name with
-  | .quoted => do let v ← quotedValueX g pre; pure ((name, v), reg)
+  | .quoted => do let v ← quotedValue pre; pure ((name, v), reg)
   | .literal => do let v ← literalValueX g pre; pure ((name, v), reg)
   | .toggle => do let _ ← eol; pure ((name, []), reg)
   | .unknown =>
-    match ← attempt (quotedValueX g pre) with
+    match ← attempt (quotedValue pre) with
     | some v => pure ((name, v), reg.addQuoted name)
     | none =>
       match ← attempt (literalValueX g pre) with
